@@ -5,7 +5,7 @@ ROOT = os.path.dirname(os.path.dirname(os.path.abspath(__file__)))
 
 def repo_commits():
     out = subprocess.run(["git", "-C", "/repo", "log", "--format=%h %s"], capture_output=True, text=True).stdout
-    return [l.split()[0] for l in out.splitlines() if "instrumentation hook" in l]
+    return [l.split()[0] for l in out.splitlines() if "instrumentation hook" in l or l.split(" ", 1)[1].startswith("verif hook:")][::-1]
 
 CHECKS = {
  "C01": dict(cat="exploration", design="§4 C01",
